@@ -50,7 +50,7 @@ func coldFam() famDef {
 	groups := []group.Group{group.P256, group.P384, group.P521, group.Ristretto255}
 	suites := []oprf.Suite{oprf.SuiteRistretto255, oprf.SuiteP256, oprf.SuiteP384}
 	kems := []hpke.KEM{hpke.KEM_X25519_HKDF_SHA256, hpke.KEM_X448_HKDF_SHA512, hpke.KEM_P256_HKDF_SHA256, hpke.KEM_X25519_KYBER768_DRAFT00}
-	return famDef{name: "cold", cold: true, late: true, kinds: []string{"tkn20", "bls", "group", "kem", "sign", "oprf", "hpke", "pairing", "keccak.x2", "keccak.x4", "p384", "tss", "tkn20"}, build: func(seed uint64) *shared {
+	return famDef{name: "cold", cold: true, late: true, kinds: []string{"tkn20", "bls", "group", "kem", "sign", "oprf", "hpke", "pairing", "keccak.x2", "keccak.x4", "p384", "tss", "tss1", "tkn20"}, build: func(seed uint64) *shared {
 		return &shared{ops: map[string]func(uint64) []byte{
 			"tkn20": func(a uint64) []byte {
 				pk, msk, err := tkn20.Setup(core.NewStream(seed + 100 + a))
@@ -244,6 +244,26 @@ func coldFam() famDef {
 					return []byte("!!FAILED: combine-err: " + err.Error())
 				}
 				return digest(sig)
+			},
+			// one partial signature with a share that has no cached exponent, from a deal of
+			// the task's own size: the only call into whatever the package keeps per player count
+			"tss1": func(a uint64) []byte {
+				key := fixtures.RSAKey("std-1024-a")
+				l := uint(3 + 2*(a%3))
+				shares, err := tssrsa.Deal(core.NewStream(seed+1600+a), l, 2, key, false)
+				if err != nil {
+					return []byte("!!FAILED: deal-err")
+				}
+				ph, err := tssrsa.PadHash(&tssrsa.PKCS1v15Padder{}, crypto.SHA256, &key.PublicKey, msgOf(a))
+				if err != nil {
+					return []byte("!!FAILED: pad-err")
+				}
+				ss, err := shares[0].Sign(core.NewStream(seed+1700+a), &key.PublicKey, ph, false)
+				if err != nil {
+					return []byte("!!FAILED: sign-err")
+				}
+				b, _ := ss.MarshalBinary()
+				return digest(b)
 			},
 			"pairing": func(a uint64) []byte {
 				var k bls12381.Scalar
